@@ -1,7 +1,7 @@
 """C20: build configuration never changes results; async-stack bookkeeping balanced (cross-configuration differential)."""
 import random
 
-from .. import core, expr_check, gen_expr, gen_stream
+from .. import core, expr_check, gen_expr, gen_stream, coro_check, coro_model
 from ._expr_common import ASSUME
 
 
@@ -60,6 +60,90 @@ def run(tier, seed, verdict):
                 logs.setdefault((pid, sid), {})[variant] = canon
                 P = [l for l in info["lines"] if l.startswith("P ")]
                 traits.setdefault((pid, sid), {})[variant] = P[0] if P else ""
+    # coroutine expressions (C++20 configurations only): the same task<> plans and scenarios under each of them; the
+    # canonical logs must agree, no configuration may die, and where tracing is on (debug + visitation) async_trace from
+    # inside a task must reach the outer receiver ("Z ... root=1")
+    cvars = [v for v in variants if v.startswith("cfg20")]
+    if quick:
+        cvars = ["cfg20r0", "cfg20d1"]
+    crng = random.Random(seed * 131 + 9)
+    plansets = [coro_check.gen_plans(crng) for _ in range(10 if quick else 60)]
+    for plans in plansets:
+        # every plan set takes at least one async_trace from inside a task body (root plan and, if any, the deepest plan)
+        for pl in (plans[0], plans[-1]):
+            pl[1].insert(crng.randint(0, len(pl[1])), ("z", 0))
+    cjobs = []
+    csid = 0
+    for pi, plans in enumerate(plansets):
+        for prog in (1, 2):
+            for sc in coro_check.scenarios_for(plans, prog, crng, 30 if quick else 80):
+                sc["dic"] = sc["fsc"] = sc["poison"] = 0
+                csid += 1
+                cjobs.append((csid, pi, prog, sc))
+    clogs = {}
+    cstats = {"evaluations": 0, "traces": 0, "traces_reaching_root": 0}
+    for variant in cvars:
+        cr = coro_check.CoroRun(seed, 0, 0, variant)
+        cr.build()
+        chunks = [cjobs[i::core.NCPU] for i in range(core.NCPU)]
+
+        def run_chunk(chunk):
+            lines = [coro_check.scn_line(prog, sid, sc, plansets[pi]) for sid, pi, prog, sc in chunk]
+            return chunk, cr.run_batch(lines)
+
+        for chunk, (results, crashes) in core.parallel(run_chunk, [c for c in chunks if c]):
+            byid = {j[0]: j for j in chunk}
+            for (sid, err, rc, timed_out) in crashes:
+                ss = core.san_summary(err)
+                j = byid.get(sid)
+                what = (ss[0] + ":" + ">".join(ss[1][:3])) if ss else core.abort_summary(err, rc)
+                verdict.violation("C20:cfgdiff-coro:%s:died:%s" % (variant, what),
+                                  "task<> plan run died under configuration %s" % variant,
+                                  "plans: %s\nscenario: %s\nvariant %s\n\n%s" % (
+                                      coro_model.plan_text(plansets[j[1]]) if j else "?",
+                                      coro_check.scn_line(j[2], 0, j[3], plansets[j[1]]) if j else "?", variant, err[-5000:]))
+            for sid, pi, prog, sc in chunk:
+                info = results.get(sid)
+                if not info or not info["complete"]:
+                    continue
+                cstats["evaluations"] += 1
+                for l in info["lines"]:
+                    if l.startswith("V M13"):
+                        verdict.violation("C20:cfgdiff-coro:%s:async-stack:%s" % (variant, l[2:].replace(" ", "_")), l,
+                                          "plans: %s\nvariant %s\n\n%s" % (coro_model.plan_text(plansets[pi]), variant,
+                                                                              "\n".join(info["lines"])))
+                    if l.startswith("Z ") and variant.endswith("d1"):
+                        cstats["traces"] += 1
+                        if l.endswith("root=1"):
+                            cstats["traces_reaching_root"] += 1
+                        else:
+                            verdict.violation("C20:cfgdiff-coro:%s:async_trace-does-not-reach-root" % variant, l,
+                                              "plans: %s\nscenario: %s\nvariant %s\n\n%s" % (
+                                                  coro_model.plan_text(plansets[pi]),
+                                                  coro_check.scn_line(prog, 0, sc, plansets[pi]), variant, "\n".join(info["lines"])))
+                clogs.setdefault(sid, {})[variant] = coro_check.canon(info["lines"])
+    cbase = cvars[0]
+    ccompared = 0
+    for sid, byv in sorted(clogs.items()):
+        if cbase not in byv:
+            continue
+        for v in cvars[1:]:
+            if v not in byv:
+                continue
+            ccompared += 1
+            if byv[v] != byv[cbase]:
+                a, b = byv[cbase], byv[v]
+                i = 0
+                while i < min(len(a), len(b)) and a[i] == b[i]:
+                    i += 1
+                kind = (a[i] if i < len(a) else (b[i] if i < len(b) else "?")).split(" ", 1)[0]
+                j = cjobs[sid - 1]
+                verdict.violation("C20:cfgdiff-coro:%s-vs-%s:first-difference-%s" % (cbase, v, kind),
+                                  "task<> event logs differ between configurations %s and %s" % (cbase, v),
+                                  "plans: %s\nscenario: %s\n\n--- %s\n%s\n\n--- %s\n%s\n" % (
+                                      coro_model.plan_text(plansets[j[1]]), coro_check.scn_line(j[2], 0, j[3], plansets[j[1]]),
+                                      cbase, "\n".join(a), v, "\n".join(b)))
+    stats["evaluations"] += cstats["evaluations"]
     base = variants[0]
     for (pid, sid), byv in sorted(logs.items()):
         if base not in byv:
@@ -98,16 +182,24 @@ def run(tier, seed, verdict):
                 "async stacks} x {continuation visitation 0,1}); the canonical event log (callable invocations with payload "
                 "ids, leaf start/stop/completion order, outcome, context tags) and the declared sender traits must be identical "
                 "to the %s baseline; debug configurations also check that no AsyncStackRoot is left active at quiescence. "
+                "Additionally %d task<> plan sets (harness/src/coro.cpp) x scenarios under the C++20 configurations %s: logs equal, no "
+                "configuration dies, async_trace from inside a task reaches the outer receiver where tracing is on. "
                 "evaluations = scenario executions over all configurations; distinct_nontrivial = distinct (program, baseline "
-                "canonical log)" % (len(progs), budget, variants, base),
+                "canonical log)" % (len(progs), budget, variants, base, len(plansets), cvars),
         "samples": samples or ["(none)"],
         "configurations": variants,
         "pairs_compared": stats["compared"],
+        "coroutine_configurations": cvars,
+        "coroutine_pairs_compared": ccompared,
+        "coroutine_async_traces_checked": cstats["traces"],
+        "coroutine_async_traces_reaching_root": cstats["traces_reaching_root"],
         "programs_not_compilable_per_configuration": stats.get("dropped", {}),
         "exhaustive": False,
     }
     assume = list(ASSUME) + [
-        "only g++ 12 / libstdc++ configurations; coroutine expressions are not part of this differential yet",
-        "async_trace's receiver chain is not inspected; async-stack balance is checked at scenario quiescence on the driver thread",
+        "only g++ 12 / libstdc++ configurations; task<> plans are compared among the C++20 configurations only (quick: release "
+        "without visitation vs debug with visitation)",
+        "async_trace is inspected from inside task<> bodies only (the chain must reach the outer receiver where async stacks and "
+        "visitation are both on); async-stack balance is checked at scenario quiescence on the driver thread",
     ]
     return cov, assume, "exploration"
